@@ -812,11 +812,13 @@ func c13GlyphCounts(r *run.Run) {
 	}
 	counts = append(counts, 65535)
 	r.Explore(explore.Config{Name: "C13.glyph-counts"},
-		"simple fonts with n custom glyph names, n in {60000, 65135, every value 65138..65152 (string identifiers reach 65535), 65535}, and CID-keyed fonts with the same numbers of glyphs: Write returns an error or the font reads back with every name / CID (a file that cannot be read back is never written)",
+		"simple fonts with n custom glyph names, n in {60000, 65135, every value 65138..65152 (string identifiers reach 65535), 65535}, and CID-keyed fonts with the same numbers of glyphs: Write returns an error or the font reads back with every name / CID and the (custom) strings of the font information (a file that cannot be read back is never written)",
 		func(c *explore.Ctx) {
 			n := counts[c.Choose(len(counts), "glyphs")]
 			cidKeyed := c.Bool("CID-keyed")
 			f := &cff.Font{FontInfo: c13Info(), Outlines: &cff.Outlines{Private: []*type1.PrivateDict{c13Priv(0)}, FDSelect: func(glyph.ID) int { return 0 }}}
+			f.FontInfo.Notice = "a notice of the verif font"
+			f.FontInfo.Copyright = "(c) verif"
 			if cidKeyed {
 				f.ROS = &cid.SystemInfo{Registry: "Adobe", Ordering: "Identity"}
 				f.FontMatrices = []matrix.Matrix{matrix.Identity}
@@ -865,6 +867,11 @@ func c13GlyphCounts(r *run.Run) {
 					c.Fail("C13.names", "glyph counts", "glyph %d comes back as %q (%s)", i, g.Glyphs[i].Name, desc)
 					return
 				}
+			}
+			// the strings of the font information share the identifier space with the glyph names
+			a, b := f.FontInfo, g.FontInfo
+			if a.FontName != b.FontName || a.FullName != b.FullName || a.FamilyName != b.FamilyName || a.Weight != b.Weight || a.Version != b.Version || a.Notice != b.Notice || a.Copyright != b.Copyright {
+				c.Fail("C13.fontinfo", "glyph counts", "the font information %+v comes back as %+v (%s)", *a, *b, desc)
 			}
 		})
 }
@@ -1027,6 +1034,56 @@ func c13WidthsExtreme(r *run.Run) {
 		})
 }
 
+// c13WidthsHinted: the width operand shares the operand stack with the first stem hints of the charstring.
+func c13WidthsHinted(r *run.Run) {
+	counts := []int{0, 1, 22, 23, 24, 25, 47, 48, 49}
+	r.Explore(explore.Config{Name: "C13.widths-hinted"},
+		"advance widths of glyphs with {0, 1, 22..25, 47..49} horizontal and/or vertical stem hints (the width operand shares the 48-entry operand stack with the first stem operator), width equal to / different from the most frequent width, simple and CID-keyed: recovered to 16.16 precision, stems kept",
+		func(c *explore.Ctx) {
+			nh := counts[c.Choose(len(counts), "hstems")]
+			nv := counts[c.Choose(len(counts), "vstems")]
+			w := []float64{500, 620, 0.25}[c.Choose(3, "width")]
+			f := &cff.Font{FontInfo: c13Info(), Outlines: &cff.Outlines{Private: []*type1.PrivateDict{c13Priv(0)}, FDSelect: func(glyph.ID) int { return 0 }}}
+			cidKeyed := c.Bool("CID-keyed")
+			ws := []float64{500, 500, w, 500}
+			for i, wd := range ws {
+				g := c13Glyph([]string{".notdef", "A", "B", "C"}[i], wd, i+1)
+				if i == 2 {
+					for k := 0; k < nh; k++ {
+						g.HStem = append(g.HStem, float64(10*k), float64(10*k+4))
+					}
+					for k := 0; k < nv; k++ {
+						g.VStem = append(g.VStem, float64(12*k), float64(12*k+5))
+					}
+				}
+				if cidKeyed {
+					g.Name = ""
+					f.GIDToCID = append(f.GIDToCID, cid.CID(i))
+				}
+				f.Glyphs = append(f.Glyphs, g)
+			}
+			if cidKeyed {
+				f.ROS = &cid.SystemInfo{Registry: "Adobe", Ordering: "Identity"}
+				f.FontMatrices = []matrix.Matrix{matrix.Identity}
+			} else {
+				f.Encoding = cff.StandardEncoding(f.Glyphs)
+			}
+			desc := fmt.Sprintf("%d hstems, %d vstems, width %v, CID-keyed %v", nh, nv, w, cidKeyed)
+			c.Sample(func() any { return desc })
+			c.Nontrivial()
+			_, g := c13Roundtrip(c, "hinted widths", f, desc)
+			if g == nil {
+				return
+			}
+			c13Compare(c, "hinted widths", f, g, desc)
+			for i := range f.Glyphs {
+				if math.Abs(g.Glyphs[i].Width-f.Glyphs[i].Width) > 1.0/65536 || !cmp.Equal(g.Glyphs[i].HStem, f.Glyphs[i].HStem, cmpopts.EquateEmpty()) || !cmp.Equal(g.Glyphs[i].VStem, f.Glyphs[i].VStem, cmpopts.EquateEmpty()) {
+					c.Fail("C13.width", "hinted widths", "glyph %d: width %v and %d+%d stem values come back as width %v and %d+%d (%s)", i, f.Glyphs[i].Width, len(f.Glyphs[i].HStem), len(f.Glyphs[i].VStem), g.Glyphs[i].Width, len(g.Glyphs[i].HStem), len(g.Glyphs[i].VStem), desc)
+				}
+			}
+		})
+}
+
 func init() {
 	Register("C13", func(r *run.Run) {
 		r.Rule = "bounded exhaustive enumeration of cff.Font values; Read(Write(F)) compared field by field; the bytes walked by the independent CFF reader (INDEX offsets and minimal offSize, DICT operands, charset/encoding/FDSelect) and widths re-derived by the independent interpreter"
@@ -1043,5 +1100,6 @@ func init() {
 		c13DeltaArrays(r)
 		c13Widths(r)
 		c13WidthsExtreme(r)
+		c13WidthsHinted(r)
 	})
 }
